@@ -1,6 +1,7 @@
 """Families of abstract preprocessor programs (exhaustive small shapes + seeded larger ones)."""
 import itertools, random
-from ppref import T, Com, Def, Undef, UndefAll, Use, Cond, Inc, Kept
+import copy
+from ppref import T, Com, Def, Undef, UndefAll, Use, Cond, Inc, Kept, Layout
 
 ALT_BODIES = {'A': [None, {'text': 'va'}], 'B': [None, {'text': 'vb'}], 'C': [None, {'text': 'vc'}]}
 
@@ -11,6 +12,27 @@ class Prog:
         self.items = items
         self.names = names      # symbolic names of the initial table
         self.files = files or {}
+
+
+def crlf_variant(pg):
+    """the same program rendered with CR LF line ends (Windows sources): same tokens, table and errors expected"""
+    q = copy.deepcopy(pg)
+    q.label = pg.label + '/crlf'
+    q.items = [Layout(crlf=True)] + q.items
+    if getattr(q, 'files', None):
+        q.files = {k: ([Layout(crlf=True)] + v if isinstance(v, list) else v) for k, v in q.files.items()}
+        if hasattr(q, 'ref_files'):
+            q.ref_files = {k: ([Layout(crlf=True)] + v if isinstance(v, list) else v) for k, v in q.ref_files.items()}
+    return q
+
+
+def with_crlf(progs, pick):
+    """progs + CR LF variants of those whose label is in `pick` (or every len(progs)//pick-th when pick is an int)"""
+    if isinstance(pick, int):
+        chosen = progs[::max(1, len(progs) // pick)][:pick]
+    else:
+        chosen = [p for p in progs if p.label in pick]
+    return progs + [crlf_variant(p) for p in chosen]
 
 
 def _fresh():
@@ -74,6 +96,13 @@ def cond_programs(tier, seed):
                                            Cond(True, [('B', [T('nB', '\n')])], [T('yB', '\n')])], ['A', 'B']))
     progs.append(Prog('via-macro/in-dead', [Def('MK', '`define B zz', body_items=[Def('B', 'zz')]), Cond(False, [('A', [Use('MK', None, '\n')])], None),
                                             Cond(False, [('B', [T('yB', '\n')])], [T('nB', '\n')])], ['A', 'B']))
+    # text in parentheses right after an object-like macro usage is part of the expansion: conditionals, definitions and usages
+    # standing there are preprocessed with it
+    progs.append(Prog('via-macro/paren-cond', [Def('LOG', 'lg'), T('i', ' '), Use('LOG', None, '\n', paren_items=[
+        Cond(False, [('A', [T('1', ' ')])], [T('0', ' ')], end_sep=' ', compact=True)]), T('z', '\n')], ['A']))
+    progs.append(Prog('via-macro/paren-define', [Def('LOG', 'lg'), Use('LOG', None, '\n', paren_items=[T('p', '\n'), Def('B', 'zz'), T('q', ' ')]),
+                                                 Cond(False, [('B', [T('yB', '\n')])], [T('nB', '\n')])], ['A', 'B']))
+    progs.append(Prog('via-macro/paren-use', [Def('LOG', 'lg'), Def('W', 'w8'), Use('LOG', None, '\n', paren_items=[Use('W', None, ' ')]), T('z', '\n')], ['A']))
     if tier == 'thorough':
         rnd = random.Random(seed)
         # nesting depth 2, exhaustive over inner/outer names for ifdef/ifndef
@@ -86,7 +115,7 @@ def cond_programs(tier, seed):
             progs.append(Prog('nest/%s%s/%s%s/%d' % ('!' if neg1 else '', n1, '!' if neg2 else '', n2, pos), items, ['A', 'B']))
         for k in range(40):
             progs.append(random_cond_prog(rnd, k))
-    return progs
+    return with_crlf(progs, 4)
 
 
 def random_cond_prog(rnd, k, depth=2):
@@ -159,7 +188,7 @@ def site_programs(tier, seed):
     progs.append(Prog('site/position', [T('h', ' '), Use('__LINE__', None, ' '), T('m', '\n'), Use('__FILE__', None, ' '), T('q', '\n')], ['A']))
     # comments
     progs.append(Prog('site/comments', [T('a', ' '), Com('// c1'), T('b', ' '), Com('/* c2 */', ' '), T('c', '\n'), Com('/* m\n l */'), T('d', '\n')], ['A']))
-    return progs
+    return with_crlf(progs, 3)
 
 
 def table_programs(tier, seed):
@@ -182,7 +211,12 @@ def table_programs(tier, seed):
                                                    Cond(False, [('B', [T('yB', '\n')])], [T('nB', '\n')])], ['A', 'B']))
     progs.append(Prog('table/def-via-macro', [Def('MK', '`define B zz', body_items=[Def('B', 'zz')]), Use('MK', None, '\n'),
                                                Cond(False, [('B', [T('yB', '\n')])], [T('nB', '\n')])], ['A', 'B']))
-    return progs
+    # macro names written as escaped identifiers: \\A and A name the same macro at every site (define, undef, conditionals, usage)
+    progs.append(Prog('table/undef-escaped', [Def('M', 'x1'), Undef('\\M'), Undef('\\A'), Cond(False, [('A', [T('ya', '\n')])], [T('na', '\n')]),
+                                              Cond(False, [('M', [T('ym', '\n')])], [T('nm', '\n')])], ['A']))
+    progs.append(Prog('table/def-escaped', [Def('\\M', 'x1'), Use('M', None, '\n'), Cond(True, [('\\M', [T('nm', '\n')])], [T('ym', '\n')]),
+                                            Cond(False, [('\\A', [T('ya', '\n')]), ('\\M', [T('em', '\n')])], None)], ['A']))
+    return with_crlf(progs, ('table/def-plain', 'table/redefine', 'table/def-args', 'table/undef-via-macro'))
 
 
 def ws_programs():
@@ -206,11 +240,18 @@ def comment_programs(tier, seed):
     progs.append(Prog('com/after-ifdef', [Cond(False, [('A', [Com('// in a'), T('x', '\n')])], [Com('/* in e */'), T('y', '\n')]), Com('// tail'), T('z', '\n')], ['A']))
     progs.append(Prog('com/next-to-use', [Com('/* l */', ''), Use('A', None, ''), Com('/* r */', ' '), T('z', '\n')], ['A']))
     progs.append(Prog('com/in-define-body', [Def('M', 'm1 /* keep */ m2', body_items=[T('m1', ' '), Com('/* keep */', ' '), T('m2', '')]), T('a', ' '), Use('M', None, ' '), Com('// t'), T('z', '\n')], ['A']))
+    # a comment is the first / last thing of a macro body and the usages touch their neighbours: the blank that replaces a stripped
+    # comment is the only separator in the expansion
+    progs.append(Prog('com/macro-body-edge', [Def('M', 'x/*c*/', body_items=[T('x', ''), Com('/*c*/', '')]), Use('M', None, ''), Use('M', None, '\n'),
+                                              Def('N', '/*d*/y', body_items=[Com('/*d*/', ''), T('y', '')]), T('k', ''), Use('N', None, '\n')], ['A']))
+    # the line end after a usage matters: the expansion is a `define, the next line must not become part of it
+    progs.append(Prog('com/usage-line-end', [Def('MK', '`define W w8', body_items=[Def('W', 'w8')]), Use('MK', None, '\n'), T('wire', ' '), Use('W', None, '\n'),
+                                             Cond(False, [('W', [T('yW', '\n')])], [T('nW', '\n')])], ['A']))
     progs.append(Prog('com/kept', [Kept('`timescale 1ns/1ps'), Com('// after kept'), T('q', '\n')], ['A']))
     progs.append(Prog('com/undef', [Undef('A'), Com('// c'), T('q', ' '), Com('/* d */', ' '), UndefAll(), T('r', '\n')], ['A']))
     progs.append(Prog('com/multi', [Com('/* a\n b */'), T('x', ' '), Com('/**/', ''), T('y', '\n'), Com('//'), T('z', '\n')], ['A']))
     progs += ws_programs()
-    return progs
+    return with_crlf(progs, ('com/line', 'com/multi', 'com/in-define-body', 'com/after-ifdef'))
 
 
 class IncProg(Prog):
@@ -264,9 +305,27 @@ def include_programs(tier, seed):
     progs.append(IncProg('inc/no-final-newline-angle', [T('a', '\n'), Inc('f.svh', '<'), T('z', '\n')], ['A'], {'f.svh': [T('fc', '')]}, exists={'f.svh': True}))
     progs.append(IncProg('inc/macro-named-no-final-newline', [Def('INC', '"f.svh"'), Inc('f.svh', 'INC'), T('z', '\n')], ['A'],
                          {'f.svh': [T('f0', '\n'), T('fc', '')]}, exists={'f.svh': True}))
+    progs.append(IncProg('inc/macro-named-trailing-blanks', [Def('INC', '"f.svh"   '), Inc('f.svh', 'INC'), T('z', '\n')], ['A'],
+                         {'f.svh': F('fc'), 'p1/f.svh': F('f1')}))
+    progs.append(IncProg('inc/macro-named-line-comment', [Def('INC', '"f.svh" // the header'), Inc('f.svh', 'INC'), T('z', '\n')], ['A'],
+                         {'f.svh': F('fc'), 'p1/f.svh': F('f1')}))
+    progs.append(IncProg('inc/macro-named-missing-trailing-blanks', [Def('INC', '"nofile.svh"  '), Inc('nofile.svh', 'INC'), T('z', '\n')], ['A'], {'f.svh': F('fc')}))
+    # the path handed to preprocess_str has no parent directory ("" is the idiom of the string entry points)
+    for lab, items, files in (('missing', [T('a', '\n'), Inc('nofile.svh'), T('z', '\n')], {}),
+                              ('found-in-path', [T('a', '\n'), Inc('f.svh'), T('z', '\n')], {'p1/f.svh': F('f1')}),
+                              ('macro-named', [Def('INC', '"f.svh"'), Inc('f.svh', 'INC'), T('z', '\n')], {'p1/f.svh': F('f1')})):
+        pgm = IncProg('inc/empty-top-path/' + lab, items, ['A'], files, include_paths=('p1',))
+        pgm.top_path = ''
+        progs.append(pgm)
     progs.append(IncProg('inc/macro-named-undefined', [Inc('f.svh', 'NOPE'), T('z', '\n')], ['A'], {'f.svh': F('fc')}))
     # same-line rule
     progs.append(IncProg('inc/line/tok-before', [T('a', ' '), Inc('f.svh'), T('z', '\n')], ['A'], {'f.svh': F('fc')}, exists={'f.svh': True}))
+    # the text run in front of the `include starts on an earlier line (right after a `define line, after an `undef, after blank lines)
+    progs.append(IncProg('inc/line/tok-before-after-define', [Def('M', 'm1'), T('a', ' '), Inc('f.svh'), T('z', '\n')], ['A'], {'f.svh': F('fc')}, exists={'f.svh': True}))
+    progs.append(IncProg('inc/line/tok-before-after-undef', [Undef('A'), T('a', ' '), T('b', ' '), Inc('f.svh'), T('z', '\n')], ['A'], {'f.svh': F('fc')}, exists={'f.svh': True}))
+    progs.append(IncProg('inc/line/tok-before-after-blank-lines', [Com('// head', '\n\n\n'), T('a', ' '), Inc('f.svh'), T('z', '\n')], ['A'], {'f.svh': F('fc')}, exists={'f.svh': True}))
+    progs.append(IncProg('inc/line/nested-tok-before-after-define', [Inc('g.svh'), T('z', '\n')], ['A'],
+                         {'g.svh': [Def('G', 'g1'), T('a', ' '), Inc('f.svh'), T('y', '\n')], 'f.svh': F('fc')}, exists={'f.svh': True, 'g.svh': True}))
     progs.append(IncProg('inc/line/tok-after', [Inc('f.svh', '"', ' '), T('z', '\n')], ['A'], {'f.svh': F('fc')}, exists={'f.svh': True}))
     progs.append(IncProg('inc/line/com-after', [Inc('f.svh', '"', ' '), Com('// k'), T('z', '\n')], ['A'], {'f.svh': F('fc')}, exists={'f.svh': True}))
     progs.append(IncProg('inc/line/com-before', [Com('/* k */', ' '), Inc('f.svh'), T('z', '\n')], ['A'], {'f.svh': F('fc')}, exists={'f.svh': True}))
@@ -300,7 +359,7 @@ def include_programs(tier, seed):
     # non-ASCII before an include (re-basing of the included origin map is in bytes)
     progs.append(IncProg('inc/non-ascii', [Com('// © 2024 été'), T('a', '\n'), Inc('f.svh'), T('z', '\n')], ['A'],
                          {'f.svh': [Com('/* ü */', ' '), T('fc', '\n')]}, exists={'f.svh': True}))
-    return progs
+    return with_crlf(progs, ('inc/flow-in', 'inc/nested', 'inc/line/after-text', 'inc/macro-named'))
 
 
 class DepthProg(IncProg):
@@ -380,6 +439,9 @@ def macro_programs(tier, seed):
     prog('string-with-slashes', [Def('S', '$display("http://e.org/x", x)', [('x', None)]), Use('S', ['v'], '\n')])
     prog('continuation', [Def('C', 'a1 \\\n  x \\\n  a3', [('x', None)]), T('h', ' '), Use('C', ['mid'], ' '), T('t', '\n')])
     prog('body-line-comment', [Def('C', 'k1 x // trailing', [('x', None)]), Use('C', ['v'], ' '), T('t', '\n')])
+    # object-like macro whose body ends in a one-line comment, used with a parenthesised list: the list is restored after the body,
+    # not inside the comment
+    prog('object-with-parens-line-comment', [Def('O', 'ob // shim'), T('i', ' '), Use('O', ['"v %d"', 'x'], ' '), T(';', '\n'), T('t', '\n')])
     prog('ident-boundaries', [Def('I', 'x xx x1 _x x_ (x)', [('x', None)]), Use('I', ['V'], '\n')])
     # nesting: in bodies and in arguments; current table at point of use
     prog('nested-in-body', [Def('IN', 'i(x)', [('x', None)]), Def('OUT', '`IN(y) + `IN(2)', [('y', None)]), Use('OUT', ['7'], '\n')])
@@ -387,7 +449,7 @@ def macro_programs(tier, seed):
     prog('redefine-between', [Def('V', 'v1'), Def('U', '`V'), Use('U', None, ' '), Def('V', 'v2'), Use('U', None, '\n')])
     prog('caller-table', [Def('U', '`A x', [('x', None)]), Use('U', ['1'], '\n')])
     prog('around-preserved', [Def('M', 'mm'), T('a(', ''), Use('M', None, ''), T(')b', '  '), Use('M', None, '\n'), T('c', '\n')])
-    return P
+    return with_crlf(P, ('macro/continuation', 'macro/body-line-comment', 'macro/args-basic', 'macro/nested-in-body', 'macro/string-with-slashes', 'macro/args-defaults'))
 
 
 def totality_programs(tier, seed):
